@@ -456,4 +456,168 @@ theorem unwrap_agree (parse : Bytes → Option Rat) (o : Oracles) (c : LogQL.Ctx
         exact hl
       · rw [hv', hv]
 
+/-! ### the vector aggregation stage: `AggOpPlanner` behind `ByWithoutPlanner` (in process) vs C08's `aggStage` -/
+def toVec : VecFn → LogQL.AggFn
+  | .sum => .sum | .min => .min | .max => .max | .avg => .avg | .count => .count
+
+/-- a point of the matrix as an entry of the in-process engine: its labels scanned into a Go map -/
+def scanPt (o : Oracles) (c : LogQL.Ctx) (d : LokiDb) (q : LogQuery) (p : Pt) : Entry Rat :=
+  ⟨p.ts, UInt64.ofNat (keyIntOf p.key).toNat, canonLabels (asMap (ptLabels o c d q p)), [], p.value, none⟩
+
+theorem vecValue_agree (parse : Bytes → Option Rat) (o : Oracles) (fn : VecFn) (vs : List Rat) (l : List (Entry Rat))
+    (hl : l ≠ []) (hp : (l.map (·.val)).Perm vs) :
+    aggVal o (toVec fn) vs = some (vecValue (ratOps parse) fn l) := by
+  cases hg : vs with
+  | nil =>
+    rw [hg] at hp
+    have := hp.eq_nil
+    simp at this
+    exact absurd this hl
+  | cons gv grest =>
+    cases hlv : l.map (·.val) with
+    | nil => simp at hlv; exact absurd hlv hl
+    | cons lv lrest =>
+      rw [hg, hlv] at hp
+      have hsum : ratSumL (lv :: lrest) = ratSumL (gv :: grest) := ratSumL_perm _ _ hp
+      have hlen : (lv :: lrest).length = (gv :: grest).length := hp.length_eq
+      have hlen2 : l.length = (gv :: grest).length := by
+        have : (l.map (·.val)).length = (lv :: lrest).length := by rw [hlv]
+        rw [List.length_map] at this
+        rw [this, hlen]
+      cases fn with
+      | sum => simp only [toVec, aggVal, vecValue, hlv, sumOf_rat, hsum]
+      | min =>
+        simp only [toVec, aggVal, vecValue, hlv, minOf_eq]
+        rw [foldl_min_perm _ _ _ _ hp]
+      | max =>
+        simp only [toVec, aggVal, vecValue, hlv, maxOf_eq]
+        rw [foldl_max_perm _ _ _ _ hp]
+      | avg =>
+        simp only [toVec, aggVal, vecValue, hlv, sumOf_rat, hsum, hlen]
+        rfl
+      | count => simp only [toVec, aggVal, vecValue, countOf_length, hlen2]
+
+/-- **the vector aggregation stage on the same matrix.** `pts`: the matrix ClickHouse has in front of `AggOpPlanner` (any
+    list of points on the bucket grid whose labels are label documents without a repeated name); `rows`: the same matrix as
+    the in-process engine gets it (any order). In process: the by/without planner `planAggregators` plans (`by ()` when
+    no clause is written) and the reading of `AggOpPlanner` (`aggregate` with `vecValue`); ClickHouse: `aggStage`. -/
+theorem vec_agree (parse : Bytes → Option Rat) (o : Oracles) (c : LogQL.Ctx) (d : LokiDb) (q : LogQuery) (E : Env Rat)
+    (a : VecAgg) (fn : VecFn) (hfn : toVec fn = a.fn) (pts : List Pt) (grid : Grid)
+    (hgridpts : ∀ p ∈ pts, ∃ i, i < grid.n ∧ grid.bucket p.ts = some i ∧ p.ts = grid.start + (i : Int) * grid.dur)
+    (hinj : ∀ i j : Nat, grid.start + (i : Int) * grid.dur = grid.start + (j : Int) * grid.dur → i = j)
+    (hnd : ∀ p ∈ pts, ∃ m, ptLabels o c d q p = .map m ∧ NodupKeys m)
+    (hgk : ∀ p ∈ pts, ∀ p' ∈ pts,
+      ((canonLabels (asMap (ptLabels o c d q p))).filter (fun kv => (groupingKeys (aggGrouping a)).contains kv.1 == (aggGrouping a).isBy) =
+       (canonLabels (asMap (ptLabels o c d q p'))).filter (fun kv => (groupingKeys (aggGrouping a)).contains kv.1 == (aggGrouping a).isBy)) ↔
+      (regroup o (aggGrouping a) (ptLabels o c d q p)).1 = (regroup o (aggGrouping a) (ptLabels o c d q p')).1)
+    (rows : List (Entry Rat)) (hrows : rows.Perm (pts.map (scanPt o c d q)))
+    (l : Labels) (t : Int) (v : Rat) :
+    (∃ e ∈ (aggregate (fun e : Entry Rat => e.labels) grid (vecValue (ratOps parse) fn)
+        (optByWithout E (planVecGrouping ((chosenGrouping a.byPrefix a.bySuffix).map toBW)) rows)).flatten,
+        e.labels = l ∧ e.ts = t ∧ e.val = v) ↔
+    (∃ pt ∈ aggStage o c d q a pts, canonLabels (asMap pt.labels) = l ∧ pt.ts = t ∧ pt.value = v) := by
+  let g : Grouping := aggGrouping a
+  have hbw : planVecGrouping ((chosenGrouping a.byPrefix a.bySuffix).map toBW) = some (toBW g) := by
+    simp only [planVecGrouping, g, aggGrouping]
+    cases chosenGrouping a.byPrefix a.bySuffix <;> rfl
+  let h : Pt → Entry Rat := fun p => bwEntry E (some (toBW g)) (scanPt o c d q p)
+  let kc : Pt → Val := fun p => (regroup o g (ptLabels o c d q p)).1
+  let lc : Pt → Val := fun p => (regroup o g (ptLabels o c d q p)).2
+  let bc : Pt → Int := fun p => p.ts
+  let item : Pt → Val × Val × Int × Rat := fun p => (kc p, lc p, p.ts, p.value)
+  let keyOf : Val × Val × Int × Rat → Val × Int := fun it => (it.1, it.2.2.1)
+  let P : Pt → Pt → Bool := fun sx s => decide (kc s = kc sx ∧ bc s = bc sx)
+  have hin : optByWithout E (some (toBW g)) rows = rows.map (fun e => bwEntry E (some (toBW g)) e) := rfl
+  rw [hbw, hin]
+  have hrows' : (rows.map (fun e => bwEntry E (some (toBW g)) e)).Perm (pts.map h) := by
+    have := hrows.map (fun e => bwEntry E (some (toBW g)) e)
+    rw [List.map_map] at this
+    exact this
+  have hts : ∀ p, (h p).ts = p.ts := fun p => rfl
+  have hvalc : ∀ p, (h p).val = p.value := fun p => rfl
+  have hlab : ∀ p ∈ pts, (h p).labels = canonLabels (asMap (lc p)) := by
+    intro p hp
+    obtain ⟨m, hm, hndm⟩ := hnd p hp
+    simp only [h, lc, bwEntry, Stages.relabel, scanPt, toBW, hm, regroup, asMap]
+    rw [canon_filter m hndm]
+  have hkey : ∀ s ∈ pts, ∀ s' ∈ pts, ((h s).labels = (h s').labels ↔ kc s = kc s') := by
+    intro s hs s' hs'
+    exact hgk s hs s' hs'
+  have hbucket : ∀ s ∈ pts, ∃ i, i < grid.n ∧ grid.bucket (h s).ts = some i ∧ bc s = grid.start + (i : Int) * grid.dur := by
+    intro s hs
+    exact hgridpts s hs
+  have hfilt : ∀ sx, (pts.map item).filter (fun it => keyOf it == keyOf (item sx)) = (pts.filter (P sx)).map item := by
+    intro sx
+    rw [List.filter_map]
+    congr 1
+    apply List.filter_congr
+    intro s _
+    simp only [Function.comp, keyOf, item, P, bc]
+    by_cases h1 : kc s = kc sx <;> by_cases h2 : s.ts = sx.ts <;> simp [h1, h2]
+  have hsub : ∀ sx, ∀ s ∈ pts.filter (P sx), s ∈ pts := fun sx s hs => (List.mem_filter.mp hs).1
+  have hgrpv : ∀ sx, ((pts.filter (P sx)).map item).map (·.2.2.2) = (pts.filter (P sx)).map (·.value) := by
+    intro sx; rw [List.map_map]; rfl
+  rw [group_agree pts h kc bc grid _ hrows' hkey hbucket hinj (vecValue (ratOps parse) fn)
+    (fun grp' => aggVal o a.fn (grp'.map (·.value))) ?hval l t v]
+  case hval =>
+    intro sx hsx l0 _ hperm
+    have hne : l0 ≠ [] := by
+      intro hnil
+      rw [hnil] at hperm
+      have hmem : h sx ∈ (pts.filter (P sx)).map h :=
+        List.mem_map.mpr ⟨sx, List.mem_filter.mpr ⟨hsx, by simp [P]⟩, rfl⟩
+      rw [hperm.symm.eq_nil] at hmem
+      cases hmem
+    rw [← hfn]
+    apply vecValue_agree parse o fn _ l0 hne
+    have := hperm.map (fun e : Entry Rat => e.val)
+    rw [List.map_map] at this
+    exact this
+  have hAS : aggStage o c d q a pts =
+      ((pts.map item).map keyOf).eraseDups.filterMap (fun k =>
+        (aggVal o a.fn (((pts.map item).filter (fun it => keyOf it == k)).map (·.2.2.2))).map (fun v =>
+          (⟨k.1, ((((pts.map item).filter (fun it => keyOf it == k)).head?).map (·.2.1)).getD .null, k.2, v⟩ : Pt))) := rfl
+  rw [hAS]
+  constructor
+  · rintro ⟨sx, hsx, hl, ht, hv⟩
+    have hsxP : sx ∈ pts.filter (P sx) := List.mem_filter.mpr ⟨hsx, by simp [P]⟩
+    cases hhead : (pts.filter (P sx)).head? with
+    | none => rw [List.head?_eq_none_iff] at hhead; rw [hhead] at hsxP; cases hsxP
+    | some s0 =>
+      have hs0 : s0 ∈ pts.filter (P sx) := List.mem_of_mem_head? hhead
+      have hs0P := (List.mem_filter.mp hs0).2
+      simp only [P, decide_eq_true_eq] at hs0P
+      refine ⟨⟨kc sx, lc s0, bc sx, v⟩, ?_, ?_, ht, rfl⟩
+      · rw [List.mem_filterMap]
+        refine ⟨keyOf (item sx), ?_, ?_⟩
+        · rw [List.mem_eraseDups]
+          exact List.mem_map.mpr ⟨item sx, List.mem_map.mpr ⟨sx, hsx, rfl⟩, rfl⟩
+        · rw [hfilt sx, hgrpv sx, hv, List.head?_map, hhead]
+          rfl
+      · simp only
+        rw [← hlab s0 (hsub sx s0 hs0), (hkey s0 (hsub sx s0 hs0) sx hsx).mpr hs0P.1]
+        exact hl
+  · rintro ⟨pt, hpt, hl, ht, hv⟩
+    rw [List.mem_filterMap] at hpt
+    obtain ⟨kk, hkk, hsome⟩ := hpt
+    rw [List.mem_eraseDups] at hkk
+    obtain ⟨it, hit, rfl⟩ := List.mem_map.mp hkk
+    obtain ⟨sx, hsx, rfl⟩ := List.mem_map.mp hit
+    rw [hfilt sx, hgrpv sx, List.head?_map] at hsome
+    obtain ⟨v', hv', hptv⟩ := Option.map_eq_some_iff.mp hsome
+    have hsxP : sx ∈ pts.filter (P sx) := List.mem_filter.mpr ⟨hsx, by simp [P]⟩
+    cases hhead : (pts.filter (P sx)).head? with
+    | none => rw [List.head?_eq_none_iff] at hhead; rw [hhead] at hsxP; cases hsxP
+    | some s0 =>
+      have hs0 : s0 ∈ pts.filter (P sx) := List.mem_of_mem_head? hhead
+      have hs0P := (List.mem_filter.mp hs0).2
+      simp only [P, decide_eq_true_eq] at hs0P
+      rw [hhead] at hptv
+      subst hptv
+      simp only [Option.map_some, Option.getD_some] at hl ht hv
+      refine ⟨sx, hsx, ?_, ht, ?_⟩
+      · rw [← (hkey s0 (hsub sx s0 hs0) sx hsx).mpr hs0P.1, hlab s0 (hsub sx s0 hs0)]
+        exact hl
+      · rw [hv', hv]
+
 end Qryn.Read
